@@ -206,6 +206,9 @@ pub fn load_known() -> Vec<KnownFinding> {
 
 pub trait SubCheck: Send + Sync {
     fn name(&self) -> &str;
+    /// Derive one case from raw bytes (proptest's pass-through RNG) and run it: the entry point of the
+    /// libFuzzer targets.  None = the bytes gave no case or the case passed.
+    fn run_from_bytes(&self, data: &[u8]) -> Option<(Failure, serde_json::Value)>;
     fn campaign(&self, ctx: &Ctx, known_open: &HashSet<String>) -> SubReport;
     fn replay(&self, case: &serde_json::Value) -> Result<Outcome, String>;
 }
@@ -317,6 +320,31 @@ where
 {
     fn name(&self) -> &str {
         self.name
+    }
+
+    fn run_from_bytes(&self, data: &[u8]) -> Option<(Failure, serde_json::Value)> {
+        use proptest::strategy::{Strategy, ValueTree};
+        use proptest::test_runner::{RngAlgorithm, TestRng};
+        // the pass-through RNG returns zeros once the input is used up, on which rand's rejection
+        // sampling can spin forever: append a pseudo-random tail derived from the input
+        let mut buf = data.to_vec();
+        let mut x: u64 = data.iter().fold(0xcbf29ce484222325u64, |h, &b| (h ^ b as u64).wrapping_mul(0x100000001b3)) | 1;
+        while buf.len() < data.len() + 16384 {
+            x ^= x << 13;
+            x ^= x >> 7;
+            x ^= x << 17;
+            buf.extend_from_slice(&x.to_le_bytes());
+        }
+        let rng = TestRng::from_seed(RngAlgorithm::PassThrough, &buf);
+        let mut cfg = Config::default();
+        cfg.failure_persistence = None;
+        let mut runner = TestRunner::new_with_rng(cfg, rng);
+        let tree = (self.strategy)(Tier::Quick).new_tree(&mut runner).ok()?;
+        let case = tree.current();
+        match run_case_strict(self.run, &case) {
+            Ok(_) => None,
+            Err(f) => Some((f, serde_json::to_value(&case).unwrap_or(serde_json::Value::Null))),
+        }
     }
 
     fn replay(&self, case: &serde_json::Value) -> Result<Outcome, String> {
@@ -874,4 +902,27 @@ pub fn run_property(props: &[Property], id: &str, tier: Tier, emit_json: bool, o
         t0.elapsed().as_secs_f64()
     );
     0
+}
+
+/// Entry point for the libFuzzer targets under /verif/fuzz: run sub-check `sub` of property `prop` on the
+/// case derived from `data`; a failure whose signature is not an open known finding panics (after
+/// writing a replay file under /verif/failures/<prop>/).
+pub fn fuzz_one(props: &[Property], prop: &str, sub: &str, data: &[u8]) {
+    let p = props.iter().find(|p| p.id == prop).expect("property");
+    let sc = p.subs.iter().find(|s| s.name() == sub).expect("sub-check");
+    if let Some((f, case)) = sc.run_from_bytes(data) {
+        let known = load_known();
+        if known.iter().any(|k| k.property == prop && k.status == "open" && k.signature == f.sig) {
+            return;
+        }
+        let dir = Path::new(VERIF_DIR).join("failures").join(prop);
+        let _ = std::fs::create_dir_all(&dir);
+        let mut h = DefaultHasher::new();
+        case.to_string().hash(&mut h);
+        let path = dir.join(format!("{}-fuzz-{:016x}.json", sub.replace('/', "_"), h.finish()));
+        let rf = ReplayFile { property: prop.to_string(), sub: sub.to_string(), sig: f.sig.clone(), msg: f.msg.clone(), case };
+        let _ = std::fs::write(&path, serde_json::to_string_pretty(&rf).unwrap());
+        eprintln!("VIOLATION property={} replay={}", prop, path.display());
+        panic!("{}: {}", f.sig, f.msg);
+    }
 }
